@@ -121,7 +121,7 @@ _RE_DEPTH = re.compile(r"The depth of the complete state graph search is (\d+)")
 _RE_INV = re.compile(r"Invariant (\S+) is violated")
 _RE_PROP = re.compile(r"(Temporal properties were violated|Action property (\S+) is violated|Deadlock reached)")
 _RE_REPLAY = re.compile(r'^<<"REPLAY", "(.*)">>$')
-_RE_COV = re.compile(r"^<(\w+) line (\d+), col (\d+) to line (\d+), col (\d+) of module (\w+)>: (\d+):(\d+)")
+_RE_COV = re.compile(r"^<(\w+) line (\d+), col (\d+) to line (\d+), col (\d+) of module (\w+)(?: \([\d ]+\))?>: (\d+):(\d+)")
 
 
 def tlc(module, cfg, pid, workers=8, timeout=900, simulate=None, depth=None, coverage=False,
